@@ -80,6 +80,36 @@ class ScanWorld(fcd.FcdWorld):
         fcd.FcdWorld.__init__(self, prog, ALPHA, space_oracles(), const_eq={SPACE: {"S"}})
         self.input_tag = ("label",)
 
+    # what the scan may ask about the whole label once it has read it to the end: whether it ends with
+    # U+0020 (the class of the last character read) and where that last character starts (len - 1, U+0020
+    # being one byte long)
+    def _deliver(self, m, st, itref, enumerate_):
+        letter = st.ext.get("letter")
+        r = fcd.FcdWorld._deliver(self, m, st, itref, enumerate_)
+        if not isinstance(r, ip.Outcome) and letter is not None and letter != au.END:
+            st.ext["v:lastcls"] = letter
+        return r
+
+    def str_ends_with(self, m, st, s, pat):
+        if not (isinstance(s, Str) and s.tag == self.input_tag and isinstance(pat, I) and pat.v == SPACE):
+            raise AnalysisError("ends_with(%r) on %r" % (pat, s))
+        if not st.ext.get("v:ended"):
+            raise AnalysisError("the scan asks how the label ends before it has read it to the end")
+        return ip.boolean(st.ext.get("v:lastcls") == "S")
+
+    def str_len(self, st, s):
+        if isinstance(s, Str) and s.tag == self.input_tag:
+            return Sym(("len",), "usize")
+        return fcd.FcdWorld.str_len(self, st, s)
+
+    def binop_hook(self, st, op, a, b):
+        base = op.replace("WithOverflow", "").replace("Unchecked", "")
+        if base == "Sub" and isinstance(a, Sym) and a.name == ("len",) and isinstance(b, I) and b.v == 1 and st.ext.get("v:ended") and st.ext.get("v:lastcls") == "S":
+            # the label ends with U+0020 (one byte): len - 1 is the byte offset of that last character
+            r = Sym(("boff", 0), "usize")
+            return ip.Tup((r, ip.boolean(False))) if op.endswith("WithOverflow") else r
+        return fcd.FcdWorld.binop_hook(self, st, op, a, b)
+
 
 def scan_result(o):
     v = o.value
